@@ -3,7 +3,8 @@
 use std::collections::BTreeMap;
 
 use debruijn::dna_string::DnaString;
-use debruijn::msp::msp_sequence;
+use debruijn::msp::{msp_sequence, Scanner};
+use debruijn::DnaSlice;
 use debruijn::vmer::Lmer;
 use debruijn::{DnaBytes, Exts, Kmer, Mer, Vmer};
 use proptest::prelude::*;
@@ -114,6 +115,54 @@ fn check<P: Kmer>(c: &Case) -> CheckResult {
         }
         if ps.is_empty() {
             return Err(format!("read {} of length {} >= k = {} produced no piece", ri, n, k));
+        }
+        // the other public front ends must assign the same bucket ids to the same intervals:
+        // the deprecated simple_scan (p <= 8) and Scanner::scan + MspIntervalP::bucket with the equivalent score
+        {
+            let ident: Vec<usize>;
+            let tab: &[usize] = match table.as_deref() {
+                Some(t) => t,
+                None => {
+                    ident = (0..(1usize << (2 * p))).collect();
+                    &ident
+                }
+            };
+            #[allow(deprecated)]
+            let ss = debruijn::msp::simple_scan::<_, P>(k, &DnaSlice(&r.seq), tab, c.rcmode);
+            let score = |pm: &P| {
+                let x = tab[pm.to_u64() as usize];
+                if c.rcmode {
+                    x.min(tab[pm.rc().to_u64() as usize])
+                } else {
+                    x
+                }
+            };
+            let dslice = DnaSlice(&r.seq);
+            let sc = Scanner::new(&dslice, score, k).scan();
+            if ss.len() != ps.len() || sc.len() != ps.len() {
+                return Err(format!(
+                    "read {}: msp_sequence gives {} pieces, simple_scan {} intervals, Scanner {} intervals",
+                    ri,
+                    ps.len(),
+                    ss.len(),
+                    sc.len()
+                ));
+            }
+            for i in 0..ps.len() {
+                if ss[i].len() != ps[i].bytes.len() || sc[i].len as usize != ps[i].bytes.len() || ss[i].start() != sc[i].start as usize {
+                    return Err(format!("read {} interval {}: the three front ends disagree on the interval", ri, i));
+                }
+                if ss[i].bucket() as u32 != ps[i].bucket || sc[i].bucket() as u32 != ps[i].bucket {
+                    return Err(format!(
+                        "read {} interval {}: bucket id {} from msp_sequence, {} from simple_scan, {} from Scanner/bucket(): the same k-mers are sent to different shards depending on the entry point",
+                        ri,
+                        i,
+                        ps[i].bucket,
+                        ss[i].bucket(),
+                        sc[i].bucket()
+                    ));
+                }
+            }
         }
         let mut start = 0usize;
         for (pi, pc) in ps.iter().enumerate() {
